@@ -1,7 +1,7 @@
 #!/usr/bin/env python3
 """Validate and evaluate seeded changes.
 
-usage: tools/seeded.py import <worktree> <Cxx>     copy <worktree>/mutants/m*/ into seeded/<Cxx>-m*/ after confirming
+usage: tools/seeded.py import <worktree> <Cxx> [b]  copy <worktree>/mutants/m*/ into seeded/<Cxx>-m*/ after confirming
                                                     (patch applies, suite still passes, demo fails with / passes without)
        tools/seeded.py run [<id> ...] [--tier quick|thorough] [--all-checks]
                                                     run the check(s) against each seeded change (through a scratch copy of
@@ -43,13 +43,13 @@ def drop(d):
     shutil.rmtree(d, ignore_errors=True)
 
 
-def cmd_import(worktree, pid):
+def cmd_import(worktree, pid, batch="m"):
     mdir = os.path.join(worktree, "mutants")
     for m in sorted(os.listdir(mdir)):
         src = os.path.join(mdir, m)
         if not os.path.isfile(os.path.join(src, "patch.diff")):
             continue
-        sid = f"{pid}-{m}"
+        sid = f"{pid}-{batch}{m.lstrip('m')}"
         dst = os.path.join(SEEDED, sid)
         patch = os.path.join(src, "patch.diff")
         d, wt, rc, out = scratch_with_patch(patch)
@@ -140,7 +140,7 @@ def main():
     if not a:
         raise SystemExit(__doc__)
     if a[0] == "import":
-        cmd_import(a[1], a[2])
+        cmd_import(a[1], a[2], a[3] if len(a) > 3 else "m")
     elif a[0] == "run":
         tier = "quick"
         allc = "--all-checks" in a
